@@ -23,7 +23,17 @@ RULE = ('correspondence cases: type in UC/N/CD/UD/P/NB x (dyadic | general float
         'vectors (short decimal / 1/k up to k=100 / normalised weights of length 20-100 / scipy pmf tables / sums perturbed by <= 5e-10) summing to one within 1e-9, or clearly not; SEQUENCES of 2-5 lead-time + mean/sd/cdf queries in one process that reuse demand_list / lo,hi / n,p / mean with other parameters changed and the same L, on fresh objects or one object mutated in place; statistical cases: n samples per parameter set; Markov chains with alpha,beta in [0.05,0.95] (n steps) and boundary chains with alpha or beta in {0,1} (n/5 steps: absorbing, never disrupted, one-period disruptions, alternating). '
         'non-trivial = >=2 distinct sample values (random types), list longer than 1 replayed past its end (lists), both states '
         'visited (Markov), L>=2 (lead time), float sum != 1.0 exactly or non-dyadic entries (probability vectors); '
-        'distinct = distinct (kind, parameters, seed).')
+        'distinct = distinct (kind, parameters, seed). '
+        'NUMERIC TYPES: in about half of the correspondence, Markov, reported, lead-time, steady-state and statistical cases (every other statistical Markov chain, one of them '
+        'with np.float64 probabilities throughout) each numeric parameter (mean, standard_deviation, lo/hi of UC, n, p, entries of probabilities / demand_list, '
+        'disruption_probability, recovery_probability, the lead time of N/P demand, the start state) is written, with probability 0.6, as python float, np.float64, np.int64/np.int32 '
+        '(integer values), 0-d array, np.float32 (sample paths only, values exact in single precision), ndarray (lists), np.bool_/0-1 int (start state) of the SAME value; the declared law '
+        'is that of the value, so every oracle applies unchanged (the state produced by one update feeds the next for 40 / 20000 / 100000 periods). '
+        'SEVERAL OBJECTS ALIVE: groups of 2-4 DemandSource objects (every other group one type for all, parameters fresh or partly shared; else mixed types incl. deterministic) are created first, '
+        'then ALL their lead-time distribution objects (1-2 lead times each) are obtained, and only then each object is compared with the L-fold convolution of its own source (creation / reverse / '
+        'shuffled order), followed by reported mean/sd/cdf of every source and round-robin generate_demand() under one seed against the transform of the variates; groups of 2-4 DisruptionProcess '
+        'objects (Markovian, some explicit) are advanced side by side period by period and each is held against its own declared chain (transcription on the interleaved variates, transitions of '
+        'probability 0/1, transition and steady-state frequencies) / its own list; non-trivial = >= 2 distribution objects held at once.')
 
 NT_MAX = 2000                      # budget of statistical tests per run
 DELTA = 1e-6 / NT_MAX              # per-test false-alarm probability (Bonferroni)
@@ -50,37 +60,113 @@ def in_container(lst, container):
     raise ValueError(container)
 
 
+def typed(v, form):
+    """the same number written as another numeric TYPE (cases store plain python values; the type is applied here):
+    'float' python float, 'np.float64', 'np.float32' (only for values a float32 holds exactly), 'np.int64' / 'np.int32' (integer values),
+    'array0d' a 0-d numpy array; for truth values 'np.bool_' and 'int01'; for lists the form applies to every entry, 'ndarray' makes
+    the list a numpy array."""
+    if form in (None, 'py'): return v
+    if isinstance(v, list):
+        if form == 'ndarray': return np.array(v)
+        return [typed(x, form) for x in v]
+    if form == 'np.bool_': return np.bool_(v)
+    if form == 'int01': return int(bool(v))
+    if form == 'float': return float(v)
+    if form == 'np.float64': return np.float64(v)
+    if form == 'array0d': return np.array(v)
+    if form == 'np.float32':
+        x = np.float32(v); assert float(x) == v, (v, form); return x
+    if form in ('np.int64', 'np.int32'):
+        assert float(v).is_integer(), (v, form); return (np.int64 if form == 'np.int64' else np.int32)(int(v))
+    raise ValueError(form)
+
+
+def scalar_forms(v, sampling_only):
+    """numeric types that hold the value v exactly.  float32 only for the sample-path streams (generate_demand / update_disruption_state
+    draw in double precision whatever the type of the parameters; derived float32 quantities - sd, sqrt(L) sd, pi - carry float32
+    rounding, which is not what is being tested)"""
+    fs = ['float', 'np.float64', 'np.float64', 'array0d']
+    if float(v).is_integer(): fs += ['np.int64', 'np.int32']
+    if sampling_only and float(np.float32(v)) == float(v): fs += ['np.float32']
+    return fs
+
+
+def gen_forms(rng, t, params, sampling_only=False, ltd=False, always=None):
+    """numeric TYPE of every numeric parameter of a DemandSource (or, t == 'M', of a Markovian DisruptionProcess: params = alpha,
+    beta, d0): each parameter keeps its python type with probability 0.4 and is otherwise written in one of the numpy / float forms
+    that hold its value exactly.  Only forms the unchanged library accepts are generated (see NUMERIC_FORM_NOTES): 'UD' bounds and
+    the lead time of the summed types stay python ints, a custom discrete demand_list stays a python list of ints in lead-time cases."""
+    out = {}
+    for k, v in params.items():
+        if always is None and rng.random() < 0.4: continue
+        if t == 'M' and k == 'd0': f = rng.choice(['np.bool_', 'np.bool_', 'int01'])
+        elif t == 'UD': continue
+        elif t == 'CD':
+            if k == 'demand_list':
+                if ltd: continue
+                f = rng.choice(['float', 'np.float64', 'ndarray'] + (['np.int64'] if all(float(x).is_integer() for x in v) else []))
+            else: f = rng.choice(['np.float64', 'ndarray'])
+        elif isinstance(v, (int, float)) and not isinstance(v, bool):
+            f = always if always is not None else rng.choice(scalar_forms(v, sampling_only))
+        else: continue
+        out[k] = f
+    return out
+
+
+NUMERIC_FORM_NOTES = ('numeric parameter types: python int / float, numpy float64, float32 (sample paths only), int64, int32, 0-d array for mean, '
+                      'standard_deviation, lo / hi of UC, n, p, disruption_probability, recovery_probability, the lead time of N / P demand, the entries of '
+                      'probabilities and (outside lead-time cases) of a custom discrete demand_list; numpy bool / 0-1 int start state.  NOT generated, because '
+                      "the unchanged library rejects them with an exception (reported, not counted as failing inputs): numpy integers / 0-d arrays / float32 as 'UD' "
+                      "lo, hi (validate_parameters: 'must be a non-negative integer', helpers.is_integer knows python int and float only) and as the lead time of UC / UD / NB / CD "
+                      "demand (ValueError 'lead_time must be an integer'); a float lead time with an integer value (2.0, np.float64(2)) passes that test and then raises TypeError "
+                      "in the convolution; float-typed integer 'UD' bounds pass validate_parameters and raise TypeError in lead_time_demand_distribution")
+
+
+def count_forms(chk, stream, forms):
+    for f in (forms or {}).values(): chk.count('numeric form (%s) %s' % (stream, f))
+    if not forms: chk.count('numeric form (%s) python' % stream)
+
+
 def mk_ds(c):
     from stockpyl.demand_source import DemandSource
     ds = DemandSource(type=c['type'], round_to_int=c.get('round'))
+    forms = c.get('forms') or {}
     for k, v in c['params'].items():
         if c['type'] == 'D' and k == 'demand_list': v = in_container(v, c.get('container'))
-        setattr(ds, k, v)
+        setattr(ds, k, typed(v, forms.get(k)))
     return ds
 
 
 def mk_dp(c):
     from stockpyl.disruption_process import DisruptionProcess
     if c['ptype'] == 'M':
-        return DisruptionProcess(random_process_type='M', disruption_probability=c['alpha'], recovery_probability=c['beta'],
-                                 disrupted=c.get('d0', False))
+        forms = c.get('forms') or {}
+        return DisruptionProcess(random_process_type='M', disruption_probability=typed(c['alpha'], forms.get('alpha')),
+                                 recovery_probability=typed(c['beta'], forms.get('beta')), disrupted=typed(c.get('d0', False), forms.get('d0')))
     return DisruptionProcess(random_process_type='E', disruption_state_list=in_container(c['states'], c.get('container')))
+
+
+def markov_forms(rng, c, sampling_only=False, always=None):
+    f = gen_forms(rng, 'M', dict(alpha=c['alpha'], beta=c['beta']), sampling_only=sampling_only, always=always)
+    if always is None and rng.random() < 0.5: f['d0'] = rng.choice(['np.bool_', 'np.bool_', 'int01'])
+    return f
+
+
+def draw_one(r, c):
+    """the primitive variate one generate_demand() call of source c consumes, drawn from the parallel RandomState r"""
+    t = c['type']; p = c['params']
+    if t in ('UC', 'CD'): return float(r.random_sample())
+    if t == 'N': return float(r.standard_normal())
+    if t == 'UD': return int(r.randint(int(p['lo']), int(p['hi']) + 1))
+    if t == 'P': return int(r.poisson(p['mean']))
+    if t == 'NB': return int(r.negative_binomial(p['n'], p['p']))
+    raise ValueError(t)
 
 
 def draw_variates(c, n):
     """the primitive variates generate_demand() consumes under np.random.seed(c['seed']), from a parallel RandomState"""
-    r = np.random.RandomState(c['seed']); t = c['type']; p = c['params']
-    if t in ('UC', 'CD'):
-        return [float(r.random_sample()) for _ in range(n)]
-    if t == 'N':
-        return [float(r.standard_normal()) for _ in range(n)]
-    if t == 'UD':
-        return [int(r.randint(int(p['lo']), int(p['hi']) + 1)) for _ in range(n)]
-    if t == 'P':
-        return [int(r.poisson(p['mean'])) for _ in range(n)]
-    if t == 'NB':
-        return [int(r.negative_binomial(p['n'], p['p'])) for _ in range(n)]
-    raise ValueError(t)
+    r = np.random.RandomState(c['seed'])
+    return [draw_one(r, c) for _ in range(n)]
 
 
 def np_round_int(x):
@@ -360,6 +446,7 @@ def corr_random(chk, ncase, ndraw, do_model=True):
         exact = rng.random() < 0.5
         c = dict(kind='corr', type=t, params=gen_params(rng, t, exact, frac=(t == 'CD' and rng.random() < 0.4)), round=rng.choice([None, False, True, True]) if t in ('UC', 'N') else rng.choice([None, True]),
                  seed=seed_of(rng), n=ndraw, exact=exact)
+        if rng.random() < 0.5: c['forms'] = gen_forms(rng, t, c['params'], sampling_only=True)
         cases.append(c)
     impl = []; vs = []
     for c in cases:
@@ -379,6 +466,7 @@ def corr_random(chk, ncase, ndraw, do_model=True):
     for c, r, v, m in zip(cases, impl, vs, model):
         if c['type'] == 'CD': chk.count('corr CD support=%s' % ('integer' if all(float(x).is_integer() for x in c['params']['demand_list']) else 'fractional'))
         chk.count('corr type=%s' % c['type']); chk.count('corr round=%s' % c['round']); chk.count('corr regime=%s' % ('dyadic' if c['exact'] else 'float'))
+        count_forms(chk, 'corr', c.get('forms'))
         if isinstance(r, tuple):
             chk.fail('generate_demand|%s|raises-%s' % (c['type'], r[1]), 'valid parameters raise %s: %s' % (r[1], r[2]), c)
             chk.case(c, False); continue
@@ -452,6 +540,10 @@ def fail_impossible(chk, c, st):
     return bool(bad)
 
 
+def near_f32_tie(c, u):
+    return min(abs(u - c['alpha']), abs(u - (1 - c['beta']))) < 2.0 ** -22
+
+
 def corr_markov(chk, ncase, nstep, do_model=True):
     rng = chk.rng; cases = []
     for i in range(ncase):
@@ -460,6 +552,7 @@ def corr_markov(chk, ncase, nstep, do_model=True):
         b = _dy(rng, 0, 1, 16) if exact else round(rng.random(), rng.choice([1, 2, 5]))
         if i % 3 == 0: a, b = gen_markov_boundary(rng)          # a third of the chains have a 0 or 1 transition probability
         cases.append(dict(kind='markov', ptype='M', alpha=a, beta=b, d0=rng.random() < 0.5, seed=seed_of(rng), n=nstep))
+        if i % 2 == 1: cases[-1]['forms'] = markov_forms(rng, cases[-1], sampling_only=True)
     runs = []
     for c in cases:
         dp = mk_dp(c); np.random.seed(c['seed']); st = []
@@ -472,12 +565,16 @@ def corr_markov(chk, ncase, nstep, do_model=True):
     for c, (st, us), m in zip(cases, runs, model):
         chk.count('markov cases'); chk.traces += 1
         chk.count('markov boundary=%s' % (c['alpha'] in (0, 1) or c['beta'] in (0, 1)))
+        count_forms(chk, 'markov', c.get('forms'))
         fail_impossible(chk, c, st)
         # float transcription: down stays down iff u <= 1 - beta ; up goes down iff u <= alpha
         d = c['d0']; fm = []
         for u in us:
             d = (u <= 1 - c['beta']) if d else (u <= c['alpha']); fm.append(d)
-        if fm != st:
+        if fm != st and 'np.float32' in (c.get('forms') or {}).values() and near_f32_tie(c, us[next(i for i in range(len(st)) if st[i] != fm[i])]):
+            # a float32 probability makes numpy compare in single precision: a u within float32 rounding of the threshold may fall on the other side
+            chk.extra['correspondence']['near_tie_skipped'] += 1
+        elif fm != st:
             j = next(i for i in range(len(st)) if st[i] != fm[i])
             chk.mismatch('step %d: update_disruption_state() -> %r but the declared transition on u=%r gives %r (alpha=%r, beta=%r)'
                          % (j, st[j], us[j], fm[j], c['alpha'], c['beta']), c)
@@ -630,7 +727,12 @@ def check_reported(chk, c, ds=None):
     except Exception as e:
         chk.fail(site + 'raises-%s' % exc_kind(e), 'mean/sd/distribution of valid parameters raise: %s' % str(e)[:200], c); return
     if mean is None or not close(mean, dm): chk.fail(site + 'mean!=distribution.mean', 'mean %r, demand_distribution.mean() %r' % (mean, dm), c)
-    if sd is None or not close(sd, dsd): chk.fail(site + 'sd!=distribution.std', 'standard_deviation %r, demand_distribution.std() %r' % (sd, dsd), c)
+    if sd is not None and d.sd == 0 and math.isnan(float(sd)) and math.isnan(dsd):
+        # one discriminating signature for this class (a demand that takes ONE value with probability 1: scipy's rv_discrete variance
+        # sum(x^2 p) - mean^2 cancels to -1.7e-18 for e.g. x = 0.1 and its square root is nan); still a failing input of the property
+        chk.fail(site + 'sd-nan|zero-variance', 'standard_deviation %r and demand_distribution.std() %r for a demand that takes one value with probability 1 (declared sd 0.0); demand_distribution.var() = %r'
+                 % (sd, dsd, float(dist.var())), c); sd = None
+    elif sd is None or not close(sd, dsd): chk.fail(site + 'sd!=distribution.std', 'standard_deviation %r, demand_distribution.std() %r' % (sd, dsd), c)
     if mean is not None and not close(mean, d.mean): chk.fail(site + 'mean!=declared', 'mean %r, declared distribution has mean %r' % (mean, d.mean), c)
     if sd is not None and not close(sd, d.sd): chk.fail(site + 'sd!=declared', 'standard_deviation %r, declared distribution has sd %r' % (sd, d.sd), c)
     lo = d.mean - 4 * d.sd - 1; hi = d.mean + 4 * d.sd + 1
@@ -652,13 +754,14 @@ def check_reported(chk, c, ds=None):
         if not close(a, w, rel=1e-8, abs_=1e-10): chk.fail(site + 'cdf!=declared', 'cdf(%r) = %r, declared distribution has %r' % (x, a, w), c); break
 
 
-def check_ltd(chk, c, with_var=True, ds=None):
-    """lead_time_demand_distribution(L) vs an independent L-fold convolution"""
+def check_ltd(chk, c, with_var=True, ds=None, ltd=None):
+    """lead_time_demand_distribution(L) vs an independent L-fold convolution (ltd: the object obtained earlier by that call, for the
+    cases that hold several distribution objects at once and evaluate them later)"""
     t = c['type']; L = c['L']; p = c['params']; d = Decl(c); site = 'lead_time_demand_distribution|%s|' % t
     try:
         with warnings.catch_warnings():
             warnings.simplefilter('ignore')
-            ltd = (ds if ds is not None else mk_ds(c)).lead_time_demand_distribution(L)
+            if ltd is None: ltd = (ds if ds is not None else mk_ds(c)).lead_time_demand_distribution(typed(L, c.get('L_form')))
             mean = float(ltd.mean()); var = float(ltd.var()) if (with_var or t != 'UC') else None
     except Exception as e:
         chk.fail(site + 'raises-%s' % exc_kind(e), 'L=%r raises %s: %s' % (L, exc_kind(e), str(e)[:200]), c); return None
@@ -760,14 +863,18 @@ def oracle_reported_and_ltd(chk, nper, lmax, do_model=True):
         for i in range(nper):
             c = dict(kind='reported', type=t, params=gen_params(rng, t, rng.random() < 0.5))
             if t == 'P' and rng.random() < 0.5: c['params']['mean'] = float(rng.randint(1, 25))
-            chk.count('reported type=%s' % t)
+            if i % 2 == 1: c['forms'] = gen_forms(rng, t, c['params'])
+            chk.count('reported type=%s' % t); count_forms(chk, 'reported', c.get('forms'))
             check_reported(chk, c)
             chk.case(c, True, key='reported|%s|%s' % (t, json.dumps(jsonable(c['params']), sort_keys=True)))
             for L in sorted(set([1, rng.randint(2, lmax), rng.randint(2, lmax)])):
                 cl = dict(kind='ltd', type=t, params=dict(c['params']), L=L)
                 if t == 'NB' and cl['params']['p'] < 0.2: cl['params']['p'] = 0.25        # keeps the truncated support small
                 if t in ('N', 'P') and rng.random() < 0.3: cl['L'] = L + 0.5              # non-integer lead times are allowed for N and P
-                chk.count('ltd type=%s L=%s' % (t, cl['L']))
+                if rng.random() < 0.5:
+                    cl['forms'] = gen_forms(rng, t, cl['params'], ltd=True)
+                    if t in ('N', 'P') and rng.random() < 0.6: cl['L_form'] = rng.choice(scalar_forms(cl['L'], False))
+                chk.count('ltd type=%s L=%s' % (t, cl['L'])); count_forms(chk, 'ltd', dict(cl.get('forms') or {}, **({'L': cl['L_form']} if cl.get('L_form') else {})))
                 ltd = check_ltd(chk, cl, with_var=(i == 0 and L <= 3))
                 chk.case(cl, cl['L'] >= 2, key='ltd|%s|%s|%s' % (t, json.dumps(jsonable(cl['params']), sort_keys=True), cl['L']))
                 if ltd is not None and do_model and t in ('UD', 'CD') and L <= 4:
@@ -776,7 +883,8 @@ def oracle_reported_and_ltd(chk, nper, lmax, do_model=True):
     # (lead_time_demand_distribution() of a 'CD' source is defined on integer supports only - see the claim's note - so no L here.)
     for i in range(nper):
         c = dict(kind='reported', type='CD', params=gen_params(rng, 'CD', rng.random() < 0.5, frac=True))
-        chk.count('reported type=CD fractional support')
+        if i % 2 == 1: c['forms'] = gen_forms(rng, 'CD', c['params'])
+        chk.count('reported type=CD fractional support'); count_forms(chk, 'reported', c.get('forms'))
         check_reported(chk, c)
         chk.case(c, True, key='reported|CD|%s' % json.dumps(jsonable(c['params']), sort_keys=True))
     # lead-time model (Alg/Gen.v conv_pow) against the implementation's pmf table
@@ -872,6 +980,151 @@ def oracle_sequences(chk, n, lmax):
         chk.count('ltdseq type=%s inplace=%s' % (c['type'], c['inplace']))
         check_sequence(chk, c)
         chk.case(c, len(c['steps']) >= 2, key='ltdseq|' + json.dumps(jsonable(c), sort_keys=True))
+
+
+# several objects alive at once: every DemandSource / distribution object / DisruptionProcess must keep describing ITS OWN parameters
+# whatever other objects were created or used in between
+
+SAME_TYPE_ORDER = ['UC', 'CD', 'NB', 'UD', 'N', 'P']
+
+
+def gen_interleave(rng, i, lmax):
+    """2-4 demand sources that coexist (a network's nodes): every other group has one type for all sources (parameters drawn afresh or
+    varied from the previous source so that part of them coincides), the others mix the seven types; 1-2 lead times per source"""
+    k = rng.randint(2, 4)
+    ts = [SAME_TYPE_ORDER[(i // 2) % 6]] * k if i % 2 == 0 else [rng.choice(SAME_TYPE_ORDER + ['D']) for _ in range(k)]
+    srcs = []
+    for t in ts:
+        if t == 'D':
+            lst = [rng.randint(0, 40) / rng.choice([1, 1, 2]) for _ in range(rng.randint(1, 5))]
+            srcs.append(dict(type='D', params=dict(demand_list=lst), round=None, container=gen_container(rng, lst), Ls=[])); continue
+        prev = srcs[-1] if srcs and srcs[-1]['type'] == t else None
+        p = vary_params(rng, t, prev['params']) if prev is not None and rng.random() < 0.4 else gen_params(rng, t, rng.random() < 0.6)
+        if t == 'NB' and p['p'] < 0.25: p['p'] = 0.25
+        sc = dict(type=t, params=p, round=rng.choice([None, None, True]), Ls=sorted(set(rng.randint(1, lmax) for _ in range(rng.randint(1, 2)))))
+        if rng.random() < 0.3: sc['forms'] = gen_forms(rng, t, p, ltd=True)
+        srcs.append(sc)
+    npair = sum(len(x['Ls']) for x in srcs); order = list(range(npair))
+    how = rng.choice(['creation', 'reverse', 'shuffled'])
+    if how == 'reverse': order.reverse()
+    elif how == 'shuffled': rng.shuffle(order)
+    return dict(kind='interleave', sources=srcs, order=order, how=how, seed=seed_of(rng), rounds=rng.randint(3, 8))
+
+
+def check_interleave(chk, c):
+    """(1) all sources are created, (2) all their lead-time distribution objects are obtained, (3) only then is each object compared
+    with the L-fold convolution of ITS source (in creation / reverse / shuffled order), (4) reported mean / sd / cdf of every source,
+    (5) generate_demand() of the sources in turn (round robin) under one seed against the declared transform of the variates"""
+    srcs = c['sources']; n0 = len(chk.fails); nm0 = len(chk.mismatches)
+    def sub(i, **kw): return dict({k: v for k, v in srcs[i].items() if k != 'Ls'}, **kw)
+    try:
+        objs = [mk_ds(x) for x in srcs]
+    except Exception as e:
+        chk.fail('DemandSource|raises-%s' % exc_kind(e), str(e)[:200], c); return
+    held = []
+    for i, x in enumerate(srcs):
+        for L in x['Ls']:
+            try:
+                with warnings.catch_warnings():
+                    warnings.simplefilter('ignore'); held.append((i, L, objs[i].lead_time_demand_distribution(L)))
+            except Exception as e:
+                held.append((i, L, None))
+                chk.fail('lead_time_demand_distribution|%s|raises-%s' % (x['type'], exc_kind(e)), 'source %d, L=%r raises %s: %s' % (i, L, exc_kind(e), str(e)[:200]), c)
+    for j in c['order']:
+        i, L, ltd = held[j]
+        if ltd is not None: check_ltd(chk, sub(i, kind='ltd', L=L), with_var=(srcs[i]['type'] != 'UC'), ltd=ltd)
+    for i, x in enumerate(srcs):
+        if x['type'] != 'D': check_reported(chk, sub(i, kind='reported'), ds=objs[i])
+    np.random.seed(c['seed']); r = np.random.RandomState(c['seed']); decl = [Decl(x) if x['type'] != 'D' else None for x in srcs]
+    try:
+        for rd in range(c['rounds']):
+            for i, x in enumerate(srcs):
+                t = x['type']
+                if t == 'D':
+                    got = objs[i].generate_demand(rd); want = list_oracle(x['params']['demand_list'], rd)[1]
+                    if not same_value(got, want):
+                        chk.fail('generate_demand|D|not-cyclic-replay', 'source %d, period %d: returned %r, list[period %% len] is %r' % (i, rd, got, want), c)
+                    continue
+                got = objs[i].generate_demand(); v = draw_one(r, x); fm = float_model(x, v)
+                if not decl[i].in_support(got):
+                    chk.fail('generate_demand|%s|sample-outside-support' % t, 'source %d, round %d: %r is outside the support of the declared distribution %r' % (i, rd, got, x['params']), c)
+                if not (got == fm):
+                    chk.mismatch('source %d, round %d: generate_demand() = %r but the transform of the primitive variate %r with the parameters of this source is %r'
+                                 % (i, rd, got, v, fm), c); break
+            if len(chk.mismatches) > nm0: break
+    except Exception as e:
+        chk.fail('generate_demand|raises-%s' % exc_kind(e), str(e)[:200], c)
+    for k in range(n0, len(chk.fails)):
+        sig, what, _ = chk.fails[k]
+        chk.fails[k] = (sig + '|several-objects-alive', '%d demand sources alive at once (types %s), all %d lead-time distribution objects obtained before any is evaluated (%s order): %s; parameters of the sources: %r'
+                        % (len(srcs), '/'.join(x['type'] for x in srcs), len(held), c.get('how'), what, [(x['params'], x['Ls']) for x in srcs]), jsonable(c))
+
+
+def oracle_interleave(chk, n, lmax):
+    for i in range(n):
+        c = gen_interleave(chk.rng, i, lmax)
+        same = len(set(x['type'] for x in c['sources'])) == 1
+        chk.count('interleave sources=%d %s' % (len(c['sources']), 'one type ' + c['sources'][0]['type'] if same else 'mixed types'))
+        chk.count('interleave evaluation order=%s' % c['how'])
+        for x in c['sources']: count_forms(chk, 'interleave', x.get('forms'))
+        check_interleave(chk, c)
+        chk.case(c, sum(len(x['Ls']) for x in c['sources']) >= 2, key='interleave|' + json.dumps(jsonable(c), sort_keys=True))
+
+
+def gen_interleave_dp(rng, i, T):
+    """2-4 disruption processes advanced side by side, period by period (as the simulation does for the nodes of a network)"""
+    procs = []
+    for j in range(rng.randint(2, 4)):
+        if i % 3 == 2 and rng.random() < 0.5:
+            lst = [rng.random() < 0.4 for _ in range(rng.randint(1, 6))]
+            procs.append(dict(ptype='E', states=lst, container=gen_container(rng, lst))); continue
+        a, b = gen_markov_boundary(rng) if rng.random() < 0.15 else (rng.choice([_dy(rng, 0.0625, 0.9375, 16), round(rng.uniform(0.05, 0.95), 2)]),
+                                                                    rng.choice([_dy(rng, 0.0625, 0.9375, 16), round(rng.uniform(0.05, 0.95), 2)]))
+        pr = dict(ptype='M', alpha=a, beta=b, d0=rng.random() < 0.5)
+        if rng.random() < 0.5: pr['forms'] = markov_forms(rng, pr, sampling_only=True)
+        procs.append(pr)
+    return dict(kind='interleave-dp', procs=procs, T=T, seed=seed_of(rng))
+
+
+def check_interleave_dp(chk, c, tests):
+    procs = c['procs']; T = c['T']; n0 = len(chk.fails)
+    dps = [mk_dp(x) for x in procs]; seqs = [[] for _ in procs]
+    np.random.seed(c['seed'])
+    for t in range(T):
+        for k, dp in enumerate(dps):
+            dp.update_disruption_state(t); seqs[k].append(dp.disrupted)
+    r = np.random.RandomState(c['seed']); cur = [bool(x.get('d0', False)) for x in procs]; bad = False
+    for t in range(T):
+        for k, x in enumerate(procs):
+            got = seqs[k][t]
+            if x['ptype'] == 'E':
+                want = list_oracle(x['states'], t)[1]
+                if not same_value(got, want) and not bad:
+                    bad = True; chk.fail('update_disruption_state|E|not-cyclic-replay', 'process %d, period %d: disrupted = %r, list[period %% len] is %r' % (k, t, got, want), c)
+                continue
+            u = float(r.random_sample()); cur[k] = (u <= 1 - x['beta']) if cur[k] else (u <= x['alpha'])
+            if (not is_single(got) or bool(got) != cur[k]) and not bad:
+                if 'np.float32' in (x.get('forms') or {}).values() and near_f32_tie(x, u): cur[k] = bool(got); chk.extra['correspondence']['near_tie_skipped'] += 1; continue
+                bad = True
+                chk.mismatch('process %d of %d advanced side by side, period %d: update_disruption_state() -> %r but the declared transition of THIS process on u=%r gives %r (alpha=%r, beta=%r)'
+                             % (k, len(procs), t, got, u, cur[k], x['alpha'], x['beta']), c)
+    for k, x in enumerate(procs):
+        if x['ptype'] == 'M' and all(is_single(v) for v in seqs[k]):
+            check_stat_markov(chk, dict(x, kind='statmarkov', n=T, seed=c['seed']), tests, st=[bool(v) for v in seqs[k]])
+    for k in range(n0, len(chk.fails)):
+        sig, what, _ = chk.fails[k]
+        chk.fails[k] = (sig + '|several-processes-alive', '%d disruption processes advanced side by side for %d periods: %s; processes: %r' % (len(procs), T, what, procs), jsonable(c))
+
+
+def oracle_interleave_dp(chk, n, T, tests):
+    stat_header(chk)
+    for i in range(n):
+        c = gen_interleave_dp(chk.rng, i, T)
+        chk.count('interleave-dp processes=%d' % len(c['procs']))
+        for x in c['procs']:
+            if x['ptype'] == 'M': count_forms(chk, 'interleave-dp', x.get('forms'))
+        check_interleave_dp(chk, c, tests)
+        chk.case(c, True, key='interleave-dp|%d' % c['seed'])
 
 
 def gen_probvec(rng):
@@ -997,6 +1250,8 @@ def oracle_steady(chk, n, do_model=True):
             c = dict(kind='steady', ptype='M', alpha=_dy(rng, 0, 1, 16) if rng.random() < .5 else round(rng.random(), 3), beta=_dy(rng, 0, 1, 16) if rng.random() < .5 else round(rng.random(), 3))
             if c['alpha'] + c['beta'] == 0: c['beta'] = 0.5
             if i % 6 == 4: c['alpha'], c['beta'] = gen_markov_boundary(rng)          # a probability equal to 0 or 1 (int or float)
+            if i % 4 == 2: c['forms'] = gen_forms(rng, 'M', dict(alpha=c['alpha'], beta=c['beta']))
+            count_forms(chk, 'steady', c.get('forms'))
         else:
             c = dict(kind='steady', ptype='E', states=[rng.random() < rng.choice([0.1, 0.5, 0.9]) for _ in range(rng.randint(1, 12))])
             c['container'] = gen_container(rng, c['states'])
@@ -1084,11 +1339,13 @@ def check_stat_demand(chk, c, tests):
             chk.fail(site + 'frequency', '#{samples <= %r} = %d of %d, declared cdf %.5f allows %d..%d' % (x0, k, n, p0, lo, hi), c)
 
 
-def check_stat_markov(chk, c, tests):
+def check_stat_markov(chk, c, tests, st=None):
+    """st: the state sequence of the process when it was advanced elsewhere (next to other processes); otherwise it is run here"""
     n = c['n']; a, b = c['alpha'], c['beta']; z = _z()
-    dp = mk_dp(c); np.random.seed(c['seed']); st = []
-    for _ in range(n):
-        dp.update_disruption_state(); st.append(bool(dp.disrupted))
+    if st is None:
+        dp = mk_dp(c); np.random.seed(c['seed']); st = []
+        for _ in range(n):
+            dp.update_disruption_state(); st.append(bool(dp.disrupted))
     # transitions of declared probability 0 / 1 (alpha or beta on the boundary of [0,1]) are checked one by one, not statistically
     fail_impossible(chk, c, st)
     if a + b == 0: return                      # both states absorbing: no steady state is reported (see assume); nothing statistical to test
@@ -1124,10 +1381,14 @@ def check_stat_markov(chk, c, tests):
     chk.extra['statistical']['markov_inconclusive_subtests'] = chk.extra['statistical'].get('markov_inconclusive_subtests', 0) + inconclusive
 
 
-def stat_search(chk, nset, n, tests):
-    rng = chk.rng
+def stat_header(chk):
     chk.extra.setdefault('statistical', {'label': 'SEARCH, not proof', 'per_test_false_alarm': DELTA, 'test_budget': NT_MAX,
                                          'thresholds': 'DKW eps = sqrt(ln(2/delta)/(2n)); exact binomial quantiles at delta/2; z = %.2f (normal quantile at delta/2 x %.2f)' % (_z(), Z_SAFETY)})
+
+
+def stat_search(chk, nset, n, tests):
+    rng = chk.rng
+    stat_header(chk)
     for t in ('UC', 'N', 'CD', 'UD', 'P', 'NB'):
         for i in range(nset):
             c = dict(kind='stat', type=t, params=gen_params(rng, t, rng.random() < 0.3, frac=(t == 'CD' and i % 2 == 1)), round=None, seed=seed_of(rng), n=n)
@@ -1135,12 +1396,15 @@ def stat_search(chk, nset, n, tests):
             if t == 'UC' and i == 0: c['params'] = dict(lo=2, hi=10)           # hi - lo > lo: a wrong second argument stays inside the support
             if t == 'N' and i == 0: c['params'] = dict(mean=1.0, standard_deviation=2.0)       # heavy censoring at 0
             if t in ('N', 'UC') and i == 1: c['round'] = True
-            chk.count('stat type=%s' % t)
+            if i % 2 == 0 and i > 0: c['forms'] = gen_forms(rng, t, c['params'], sampling_only=True)
+            chk.count('stat type=%s' % t); count_forms(chk, 'stat', c.get('forms'))
             check_stat_demand(chk, c, tests)
             chk.case(c, True, key='stat|%s|%d' % (t, c['seed']))
     for i in range(2 * nset):
         c = dict(kind='statmarkov', ptype='M', alpha=round(rng.uniform(0.05, 0.95), 2), beta=round(rng.uniform(0.05, 0.95), 2), d0=rng.random() < 0.5, seed=seed_of(rng), n=n)
-        chk.count('stat markov')
+        # every other chain has numpy-typed probabilities / start state (values from an array, a linspace grid, a data frame column)
+        if i % 2 == 1: c['forms'] = markov_forms(rng, c, sampling_only=True, always='np.float64' if i == 1 else None)
+        chk.count('stat markov'); count_forms(chk, 'stat markov', c.get('forms'))
         check_stat_markov(chk, c, tests)
         chk.case(c, True, key='statmarkov|%d' % c['seed'])
     for i in range(2 * nset):
@@ -1149,7 +1413,8 @@ def stat_search(chk, nset, n, tests):
         if i == 0: a, b = 0.5, 0                 # a disruption that never ends: pi_down = 1
         if i == 1: a, b = 0.25, 1                # every disruption lasts exactly one period
         c = dict(kind='statmarkov', ptype='M', alpha=a, beta=b, d0=rng.random() < 0.5, seed=seed_of(rng), n=max(n // 5, 2000))
-        chk.count('stat markov boundary')
+        if i % 2 == 1: c['forms'] = markov_forms(rng, c, sampling_only=True)
+        chk.count('stat markov boundary'); count_forms(chk, 'stat markov', c.get('forms'))
         check_stat_markov(chk, c, tests)
         chk.case(c, True, key='statmarkov|%d' % c['seed'])
     chk.extra['statistical']['tests_run'] = tests.n
@@ -1160,7 +1425,8 @@ def stat_search(chk, nset, n, tests):
 
 def run(chk):
     warnings.simplefilter('ignore')
-    chk.rule = RULE
+    chk.rule = RULE + ' ' + NUMERIC_FORM_NOTES
+    chk.extra['numeric_type_forms'] = NUMERIC_FORM_NOTES
     chk.trusted += ['model Alg/Gen.v is hand-written; tied to /repo by replaying generate_demand()/update_disruption_state() against it with the primitive variates of a parallel RandomState under the same seed, and by comparing its convolution / steady-state tables with the implementation',
                     "NumPy's legacy RandomState primitives (random_sample, standard_normal, poisson, randint, negative_binomial) are taken as inputs; that they have their nominal laws is NOT proved (statistical search only)",
                     'oracle closed forms (normal cdf via erfc, Poisson / negative-binomial pmf via lgamma, exact rational convolution, Irwin-Hall cdf by the B-spline recurrence) written in the harness',
@@ -1181,7 +1447,9 @@ def run(chk):
     oracle_validate(chk, 250 if quick else 3000)
     oracle_sequences(chk, 40 if quick else 400, 4 if quick else 6)
     oracle_steady(chk, 30 if quick else 400)
+    oracle_interleave(chk, 18 if quick else 180, 4 if quick else 6)
     tests = Tests()
+    oracle_interleave_dp(chk, 6 if quick else 40, 20000 if quick else 50000, tests)
     stat_search(chk, 4 if quick else 12, 100000 if quick else 300000, tests)
     if (chk.broken or chk.mismatches) and not chk.fails:
         # directed search for a failing input of the property: oracle + statistics only, fresh seeds, larger samples
@@ -1189,6 +1457,8 @@ def run(chk):
         oracle_steady(chk, 60, do_model=False)
         corr_markov(chk, 60, 200, do_model=False)
         oracle_sequences(chk, 80, 5)
+        oracle_interleave(chk, 36, 5)
+        oracle_interleave_dp(chk, 12, 20000, tests)
         corr_lists(chk, 120, do_model=False)
         stat_search(chk, 4 if quick else 8, 60000 if quick else 300000, tests)
 
@@ -1210,6 +1480,8 @@ def replay(chk, rp):
     elif k == 'reported': check_reported(chk, c)
     elif k == 'ltd': check_ltd(chk, c)
     elif k == 'ltdseq': check_sequence(chk, c)
+    elif k == 'interleave': check_interleave(chk, c)
+    elif k == 'interleave-dp': check_interleave_dp(chk, c, tests)
     elif k == 'probvec': check_probvec(chk, c)
     elif k == 'steady': check_steady(chk, c)
     else: print('unknown case kind %r' % k)
